@@ -35,6 +35,10 @@ META = dict(
 )
 
 TESTSETS = {
+    # parameters whose configured value is 0 / 0.0 / False (and differs from the function's default)
+    "zeros": (dict(qartod=dict(vprobe_test=dict(code=0), spike_test=dict(suspect_threshold=0, fail_threshold=5),
+                               density_inversion_test=dict(suspect_threshold=0.0, fail_threshold=-1)),
+                   axds=dict(valid_range_test=dict(valid_span=[2, 6], start_inclusive=False, end_inclusive=True))), dict(z=True, ll=False)),
     "probe": (dict(qartod=dict(vprobe_test=dict(code=3))), dict(z=False, ll=False)),
     "probe_z": (dict(qartod=dict(vprobe_test=dict(code=4))), dict(z=True, ll=False)),
     "neigh": (dict(qartod=dict(spike_test=dict(suspect_threshold=1, fail_threshold=5),
